@@ -32,13 +32,14 @@ import lib
 PROPS = [
     ("Props/C02Json.v", ["C02Json_read_write", "C02Json_read_write_strict", "C02Json_std_loads_write",
                          "C02Json_write_injective", "C02Json_output_wellformed", "C02Json_output_ascii",
-                         "C02Json_refuted_surrogate_pair", "C02Json_refuted_codepoint_range"]),
+                         "C02Json_full_refuted", "C02Json_refuted_surrogate_pair", "C02Json_refuted_codepoint_range",
+                         "C02Json_refuted_float_token", "C02Json_refuted_strict_surrogate"]),
 ]
 BRIDGE_PROPS = [
-    ("Props/C02Bridge.v", ["C02Bridge_roundtrip", "C02Bridge_valid_json", "C02Bridge_encoder_law",
-                           "C02Bridge_tr_injective"]),
+    ("Props/C02Bridge.v", ["C02Bridge_untr_tr", "C02Bridge_tr_injective", "C02Bridge_encoder_law", "C02Bridge_roundtrip",
+                           "C02Bridge_valid_json"]),
 ]
-COQ_TARGETS = ["theories/Model/JsonEq.vo", "theories/Props/C02Json.vo"]
+COQ_TARGETS = ["theories/Model/JsonEq.vo", "theories/Props/C02Json.vo", "theories/Props/C02Bridge.vo"]
 
 I64_MIN, U64_MAX = -2**63, 2**64 - 1
 
@@ -189,7 +190,7 @@ def deep(rng: random.Random, n: int):
     return x
 
 
-def typelib_wires(rng: random.Random, n: int, dist) -> list:
+def typelib_wires(rng: random.Random, n: int, dist, records=None) -> list:
     """wire values typelib itself produces: marshal(v, t=T) on C02's generated universe"""
     import c02_universe as U
     import impl
@@ -212,10 +213,12 @@ def typelib_wires(rng: random.Random, n: int, dist) -> list:
             continue
         dist["typelib:" + str(case.get("head"))] += 1
         out.append(w)
+        if records is not None:
+            records.append((case, w))
     return out
 
 
-def wire_values(run, n_random: int, n_typelib: int, dist) -> list:
+def wire_values(run, n_random: int, n_typelib: int, dist, records=None) -> list:
     rng = run.rng
     ws = []
     # one value per escape class, alone and as a key
@@ -226,7 +229,7 @@ def wire_values(run, n_random: int, n_typelib: int, dist) -> list:
            "\ud800", ["a\udfffb"], "\U0001F600", {"\udc00": 1}, deep(rng, 40), deep(rng, 150)]
     for _ in range(n_random):
         ws.append(gen_wire(rng, rng.choice([1, 2, 3, 4]), dist, wild=rng.random() < 0.25))
-    ws += typelib_wires(rng, n_typelib, dist)
+    ws += typelib_wires(rng, n_typelib, dist, records)
     return ws
 
 
@@ -238,7 +241,20 @@ def backends():
     """[(name, model backend code, dumps -> bytes, float token)]: the configured default first"""
     from typelib.py import compat
     js = compat.json
-    is_orjson = getattr(js, "__name__", "") == "orjson"
+    try:
+        import orjson
+    except ImportError:
+        orjson = None
+    if js is orjson:
+        is_orjson = True
+    elif js is json:
+        is_orjson = False
+    else:       # a shim: classify by the form it writes; the reflect obligation reports it
+        try:
+            r = js.dumps(["a", {"b": 1}])
+            is_orjson = (r if isinstance(r, bytes) else str(r).encode()) == b'["a",{"b":1}]'
+        except Exception:
+            is_orjson = orjson is not None
 
     def default_dumps(w):
         r = js.dumps(w)
@@ -327,18 +343,6 @@ def roundtrip_stream(run, ws, dist):
     run.record_corr("json-roundtrip", len(terms), [descs[i] for i in bad], None,
                     {"rule": "Coq decides on each generated wire value inside jv_ok: json_read (json_write st w) = Some w for both "
                              "styles, the strict reader on the compact form, and std_utf8_branch of both outputs (instances of the theorems)"})
-
-
-def std_obs(b):
-    """json.loads with the float token hooks -> ('ok', value) | ('reject',) | ('skip', why)"""
-    try:
-        return ("ok", json.loads(b, parse_float=FloatTok, parse_constant=FloatTok))
-    except RecursionError:
-        return ("skip", "RecursionError")
-    except ValueError as ex:           # JSONDecodeError, UnicodeDecodeError
-        if "Exceeds the limit" in str(ex):
-            return ("skip", "int digit limit")
-        return ("reject",)
 
 
 def pad_ws(rng: random.Random, b: bytes) -> bytes:
@@ -436,7 +440,7 @@ def ints_floats_ok_for_orjson(v) -> bool:
 
 def reader_stream(run, emitted: list, dist):
     rng = run.rng
-    n_mut = run.budget(1500, 12000)
+    n_mut = run.budget(700, 5000)
     texts = []
     seen = set()
 
@@ -450,60 +454,80 @@ def reader_stream(run, emitted: list, dist):
     for b in MALFORMED:
         add(b, "pool")
     base = list(dict.fromkeys(emitted))
-    for b in base[: run.budget(600, 4000)]:
+    for b in rng.sample(base, min(len(base), run.budget(350, 1500))):
         add(b, "emitted")
-    for b in rng.sample(base, min(len(base), run.budget(300, 2000))):
+    for b in rng.sample(base, min(len(base), run.budget(150, 700))):
         add(pad_ws(rng, b), "emitted+whitespace")
     small = [b for b in base if len(b) <= 200] or base
     for _ in range(n_mut):
         add(mutate(rng, rng.choice(small if rng.random() < 0.8 else MALFORMED)), "mutated")
-    try:
-        import orjson
-    except ImportError:
-        orjson = None
+    # the configured decoder compat.json.loads is one of the two observers; the other backend is imported directly
+    bes, js, is_orjson = backends()
+    if is_orjson or js is not json:
+        strict_loads, strict_name, lenient = js.loads, "compat.json.loads (%s)" % getattr(js, "__name__", js), json
+    else:
+        lenient = js
+        try:
+            import orjson
+            strict_loads, strict_name = orjson.loads, "orjson.loads"
+        except ImportError:
+            strict_loads, strict_name = None, None
+
+    def std_obs(b):
+        """json.loads with the float token hooks -> ('ok', value) | ('reject',) | ('skip', why)"""
+        try:
+            return ("ok", lenient.loads(b, parse_float=FloatTok, parse_constant=FloatTok))
+        except RecursionError:
+            return ("skip", "RecursionError")
+        except ValueError as ex:           # JSONDecodeError, UnicodeDecodeError
+            if "Exceeds the limit" in str(ex):
+                return ("skip", "int digit limit")
+            return ("reject",)
+
     terms, descs = [], []
     stats = collections.Counter()
-
-    def emit(mode, inp, obs, desc):
-        terms.append(f"({mode}, {cps(inp)}, {'None' if obs is None else 'Some ' + obs})")
-        descs.append(desc)
-
+    nobs = 0
     ident = lambda f: repr(f)
     for b, kind in texts:
         dist["reader-input:" + kind] += 1
-        # mode 5: which decoder json.loads picks
+        obs, desc = [], {"input": repr(b)[:300], "kind": kind}
+
+        def emit(mode, o, name, shown):
+            obs.append(f"({mode}, {'None' if o is None else 'Some ' + o})")
+            desc[name] = shown
+
+        # 5: which decoder json.loads picks
         u8 = is_utf8_branch(b)
-        emit(5, b, "(JBool true)" if u8 else "(JBool false)", {"mode": "detect_encoding", "input": repr(b)[:300]})
-        # mode 0: json.loads(bytes)
+        emit(5, "(JBool true)" if u8 else "(JBool false)", "detect_encoding", json.detect_encoding(b))
+        # 0: json.loads(bytes)
         if u8:
             o = std_obs(b)
             if o[0] == "skip":
                 stats["json.loads skipped: " + o[1]] += 1
             else:
                 stats["json.loads " + ("accepts" if o[0] == "ok" else "rejects") + " " + kind] += 1
-                emit(0, b, enc_jv(o[1], ident) if o[0] == "ok" else None,
-                     {"mode": "json.loads(bytes)", "input": repr(b)[:300], "observed": repr(o[1:])[:300]})
+                emit(0, enc_jv(o[1], ident) if o[0] == "ok" else None, "json.loads(bytes)", repr(o[1:])[:300])
         else:
             stats["json.loads: utf-16/32 branch of detect_encoding (outside the model)"] += 1
-        # mode 3 / 4: the UTF-8 decoder alone
-        for mode, errors in ((3, "surrogatepass"), (4, "strict")):
-            try:
-                s = b.decode("utf-8", errors)
-                emit(mode, b, f"(JStr {cps(s)})", {"mode": f"decode(utf-8,{errors})", "input": repr(b)[:300]})
-            except UnicodeDecodeError:
-                emit(mode, b, None, {"mode": f"decode(utf-8,{errors})", "input": repr(b)[:300], "observed": "UnicodeDecodeError"})
-        # mode 2: json.loads(str)
+        # 3 / 4: the UTF-8 decoder alone
         try:
             s = b.decode("utf-8", "surrogatepass")
+            emit(3, "JNull" if [ord(c) for c in s] == list(b) else f"(JStr {cps(s)})", "decode(surrogatepass)", "ok")
         except UnicodeDecodeError:
             s = None
+            emit(3, None, "decode(surrogatepass)", "UnicodeDecodeError")
+        try:
+            b.decode("utf-8")
+            emit(4, "(JBool true)", "decode(strict)", "ok")
+        except UnicodeDecodeError:
+            emit(4, "(JBool false)", "decode(strict)", "UnicodeDecodeError")
+        # 2: json.loads(str)
         if s is not None:
             o = std_obs(s)
             if o[0] != "skip":
-                emit(2, [ord(c) for c in s], enc_jv(o[1], ident) if o[0] == "ok" else None,
-                     {"mode": "json.loads(str)", "input": repr(s)[:300], "observed": repr(o[1:])[:300]})
-        # mode 1: orjson.loads
-        if orjson is not None:
+                emit(2, enc_jv(o[1], ident) if o[0] == "ok" else None, "json.loads(str)", repr(o[1:])[:300])
+        # 1: orjson.loads
+        if strict_loads is not None:
             ref = std_obs(b) if u8 else ("reject",)
             if ref[0] == "ok" and not ints_floats_ok_for_orjson(ref[1]):
                 stats["orjson.loads skipped: 64-bit-overflowing integer / overflowing float literal"] += 1
@@ -511,20 +535,90 @@ def reader_stream(run, emitted: list, dist):
                 pass
             else:
                 try:
-                    v = orjson.loads(b)
+                    v = strict_loads(b)
                     stats["orjson.loads accepts " + kind] += 1
-                    emit(1, b, enc_jv(v, lambda f: ""), {"mode": "orjson.loads", "input": repr(b)[:300], "observed": repr(v)[:300]})
+                    emit(1, enc_jv(v, lambda f: ""), strict_name, repr(v)[:300])
                 except ValueError:
                     stats["orjson.loads rejects " + kind] += 1
-                    emit(1, b, None, {"mode": "orjson.loads", "input": repr(b)[:300], "observed": "JSONDecodeError"})
-    bad, _ = eval_shards(run, "jsonr", "rcase", "rcase_ok", terms, per=400)
+                    emit(1, None, strict_name, "JSONDecodeError")
+        nobs += len(obs)
+        terms.append(f"({cps(b)}, [{'; '.join(obs)}])")
+        descs.append(desc)
+    bad, _ = eval_shards(run, "jsonr", "rcase", "rcase_ok", terms, per=150)
     dist.update(stats)
     run.record_corr("json-reader", len(terms), [descs[i] for i in bad],
-                    sum(v for k, v in stats.items() if " accepts " in k),
+                    sum(1 for d in descs if d.get("json.loads(bytes)", "").startswith("(") and not d["json.loads(bytes)"].startswith("()")),
                     {k: v for k, v in dist.items() if k.startswith(("reader-input:", "json.loads", "orjson.loads"))}
-                    | {"rule": "one case = (observer, input): std_loads vs json.loads(bytes) [float tokens via parse_float], "
-                               "json_read_strict vs orjson.loads [up to float tokens], parse_text vs json.loads(str), utf8_dec vs "
-                               "bytes.decode, std_utf8_branch vs json.detect_encoding; accept/reject and value; non-trivial = accepted"})
+                    | {"observations": nobs,
+                       "rule": "one case = one input text with all its observations: std_loads vs json.loads(bytes) [float tokens via "
+                               "parse_float], json_read_strict vs orjson.loads [up to float tokens], parse_text vs json.loads(str), utf8_dec vs "
+                               "bytes.decode (surrogatepass and strict), std_utf8_branch vs json.detect_encoding; accept/reject and value"})
+
+
+def codec_stream(run, records, dist):
+    """end to end: the bytes typelib.codec(T).encode(v) / typelib.encode(v, t=T) return vs json_write of the translation of
+    marshal(v, t=T) (the instance enc = json_dumps . mar of Proofs/CodecBridge.v), for the default pair and the stdlib pair;
+    and the atom-table laws (TableLaws) sampled on every scalar and key of those wire values."""
+    import c02_universe as U
+    import impl
+    import typelib
+    bes, js, is_orjson = backends()
+    terms, descs = [], []
+    law = collections.Counter()
+
+    def std_dumps(w):
+        return json.dumps(w).encode("utf-8")
+
+    for case, w in records:
+        for (name, code, dumps, tok), kw in ((bes[0], {}), (bes[1], {"encoder": std_dumps, "decoder": json.loads})):
+            outs = []
+            for how in ("codec", "encode"):
+                try:
+                    impl.clear_caches()
+                    _, T, v = U.build(case)
+                    b = typelib.codec(T, **kw).encode(v) if how == "codec" else typelib.encode(v, t=T, **({"encoder": kw["encoder"]} if kw else {}))
+                    if isinstance(b, str) and not is_orjson and not kw:
+                        b = b.encode("utf-8")        # json.dumps as the configured encoder returns the text itself
+                    outs.append(bytes(b) if isinstance(b, (bytes, bytearray, memoryview)) else ("not bytes", repr(b)[:80]))
+                except Exception:
+                    outs.append(None)
+            for how, obs in zip(("codec(T).encode(v)", "typelib.encode(v, t=T)"), outs):
+                if isinstance(obs, tuple):
+                    terms.append(f"({code}, JNull, Some [0])")        # never equal: reported
+                else:
+                    terms.append(f"({code}, {enc_jv(w, tok)}, {'None' if obs is None else 'Some ' + cps(obs)})")
+                descs.append({"pair": name, "entry": how, "texpr": case["texpr"], "vexpr": case["vexpr"][:300],
+                              "marshal": repr(w)[:300], "observed": repr(obs)[:300]})
+        # TableLaws: unat inverts atab / ktab -- the decoder gives back the same scalar with the same class
+        for x in walk(w):
+            if type(x) in (list, dict):
+                continue
+            for name, code, dumps, tok in bes:
+                loads = js.loads if name.startswith("compat") else json.loads
+                try:
+                    y = loads(dumps(x))
+                    ok = type(y) is type(x) and (y == x) and (type(x) is not float or repr(y) == repr(x))
+                    if ok and type(x) is str:       # the key law: the same str as a key
+                        ok = list(loads(dumps({x: None}))) == [x]
+                except Exception:
+                    outside = (type(x) is int and not (I64_MIN <= x <= U64_MAX)) or \
+                              (type(x) is str and any(0xD800 <= ord(c) < 0xE000 for c in x))
+                    if outside:                  # not a law instance: the encoder raises there (orjson_dom / str_ok)
+                        law["TableLaws:outside the encoder's domain"] += 1
+                        continue
+                    ok = False
+                law["TableLaws:unat(atab(x)) == x:" + ("held" if ok else "violated")] += 1
+                if not ok:
+                    run.samples.append({"TableLaws violated": repr(x)[:200], "backend": name})
+    bad, _ = eval_shards(run, "jsonc", "wcase", "wcase_ok", terms)
+    run.record_corr("json-codec", len(terms), [descs[i] for i in bad], sum(1 for d in descs if d["observed"] != "None"),
+                    {"rule": "one case = (T, v, coder pair, entry point): the bytes the entry point returns vs json_write(style)(tr(marshal(v, t=T))) "
+                             "evaluated in Coq (the bridge instance enc = json_dumps . mar); (T, v) from c02_universe.gen_case, not bytes-like, "
+                             "marshal(v, t=T) plain JSON data"})
+    run.laws.update(law)
+    viol = {k: v for k, v in law.items() if k.endswith(":violated")}
+    run.oblige("laws:TableLaws (the decoder gives back each wire scalar / key with its class) on every sampled wire atom", not viol,
+               json.dumps(viol))
 
 
 # ----------------------------------------------------------------------------------
@@ -539,15 +633,25 @@ def obligations(run, bridge: bool = True):
         else:
             run.oblige(f"props:{rel} exists", False, "file missing")
     bes, js, is_orjson = backends()
-    run.oblige("reflect:json backend styles (compat.json.dumps(['a', {'b': 1}]) is the compact form of orjson, or json's default form)",
-               bes[0][2](["a", {"b": 1}]) == (b'["a",{"b":1}]' if is_orjson else b'["a", {"b": 1}]')
-               and bes[1][2](["a", {"b": 1}]) == b'["a", {"b": 1}]', "")
+    try:
+        import orjson
+    except ImportError:
+        orjson = None
+    run.oblige("reflect:compat.json is the orjson module (compact form) or the standard json module (default form)",
+               (js is orjson or js is json) and bes[0][2](["a", {"b": 1}]) == (b'["a",{"b":1}]' if is_orjson else b'["a", {"b": 1}]')
+               and bes[1][2](["a", {"b": 1}]) == b'["a", {"b": 1}]', f"compat.json = {js!r}")
     dist = collections.Counter()
-    ws = wire_values(run, run.budget(350, 4000), run.budget(150, 1500), dist)
+    records = []
+    ws = wire_values(run, run.budget(350, 1500), run.budget(150, 500), dist, records)
     emitted = writer_stream(run, ws, dist)
     roundtrip_stream(run, ws, dist)
     reader_stream(run, emitted, dist)
+    if bridge:
+        codec_stream(run, records, dist)
     run.assumptions += [
+        "C02/bridge: Props/C02Bridge.v derives codec(T).decode(codec(T).encode(v)) = v and the valid-JSON clause from C01_roundtrip and "
+        "Props/C02Json.v with no hypothesis about the JSON layer; assumed: C01's RoundLaws and hypotheses on (T, v), TableLaws (sampled), "
+        "marshal(v) is JSON data with str keys inside the encoder's domain, Core.mar/unm mirror the routines (C01's correspondence)",
         "C02/json: the float <-> shortest-repr conversion of the interpreter / orjson is outside the model: a float is its literal text "
         "(float_tok_ok = the text is a JSON number with a fraction or exponent); json.detect_encoding's UTF-16/32 branches, the 4300-digit "
         "limit of int(), recursion limits of the parsers and orjson.loads' reading of 64-bit-overflowing integers as floats are outside",
